@@ -74,7 +74,7 @@ def run(ctx):
         plans = [[('R', ('kind', 'acquire', k)), ('W', ('kind', 'release', wrel)), ('R', ('done',)), ('S', ('done',)), ('W', ('done',))]
                  for k in range(2, len(r_ops) + 1) for wrel in (2, 4)]
         n = writercheck.explore(ctx, wm, cfg, r_ops, set(), pre, bound=ctx.pick(1, 2),
-                                nrandom=ctx.pick(10, 150), limit=ctx.pick(40, 800), sink=col, segments=segs, plans=plans)
+                                nrandom=ctx.pick(10, 100), limit=ctx.pick(40, 500), sink=col, segments=segs, plans=plans)
         ctx.evaluations += n
         # one write() of the flush fails (OSError / a backend-specific exception): the failure is counted and reported and
         # every other series is still flushed before the thread exits
